@@ -336,6 +336,27 @@ class Recorder:
             if hasattr(const, "co_code"):
                 self._register_code(const, name, tool)
 
+    def absorb(self, out: dict, nontrivial=(), trivial=()):
+        """Merge the dump of another recorder (e.g. one that ran inside a pytest session)."""
+        self.evaluations += out["evaluations"]
+        for k, v in out["counters"].items():
+            self.counters[k] = self.counters.get(k, 0) + v
+        for k, v in out["monitors"].items():
+            self.monitors[k] = self.monitors.get(k, 0) + v
+        for k, v in out["samples"].items():
+            self.samples.setdefault(k, []).extend(v[: self.MAX_SAMPLES])
+        for v in out["violations"]:
+            if len(self.violations) < self.MAX_VIOLATIONS:
+                self.violations.append(v)
+            else:
+                self.suppressed_violations += 1
+        self.suppressed_violations += out["suppressed_violations"]
+        for k, v in out["lines"].items():
+            self.lines.setdefault(k, set()).update(v)
+        self.harness_errors.extend(out["harness_errors"][:5])
+        self.nontrivial.update(int(x) for x in nontrivial)
+        self.trivial_distinct.update(int(x) for x in trivial)
+
     def elapsed(self) -> float:
         return time.monotonic() - self._t0
 
